@@ -130,6 +130,9 @@ structure St where
   /-- generated files -/
   fs : Path → Option File
   clock : Nat
+  /-- write position of the file most recently opened at a path (`create` and `openKeep` set it to
+      0; `write` writes there and advances it) -/
+  cur : Path → Nat := fun _ => 0
 
 def setFs (fs : Path → Option File) (p : Path) (v : Option File) : Path → Option File :=
   fun q => if q = p then v else fs q
@@ -143,7 +146,11 @@ inductive FsAct where
   | remove (p : Path)
   /-- `fs::File::create`: create or truncate -/
   | create (p : Path)
-  /-- bytes appended to an open file -/
+  /-- `OpenOptions::new().write(true).create(true).open(..)`: create if missing, but do NOT truncate
+      an existing file: its old bytes stay until they are overwritten -/
+  | openKeep (p : Path)
+  /-- bytes written at the current position of an open file (overwriting what is there, extending
+      the file at its end) -/
   | write (p : Path) (bs : Bytes)
   /-- `fs::rename` (atomic: it has no partial form in `CrashPrefix`) -/
   | rename (src dst : Path)
@@ -151,10 +158,18 @@ inductive FsAct where
 
 def applyAct (st : St) : FsAct → St
   | .remove p => { st with fs := setFs st.fs p none }
-  | .create p => { st with fs := setFs st.fs p (some ⟨[], st.clock⟩), clock := st.clock + 1 }
+  | .create p =>
+    { st with fs := setFs st.fs p (some ⟨[], st.clock⟩), clock := st.clock + 1,
+              cur := fun q => if q = p then 0 else st.cur q }
+  | .openKeep p =>
+    { st with fs := setFs st.fs p (some ⟨((st.fs p).map (·.data)).getD [], st.clock⟩), clock := st.clock + 1,
+              cur := fun q => if q = p then 0 else st.cur q }
   | .write p bs =>
     match st.fs p with
-    | some f => { st with fs := setFs st.fs p (some { f with data := f.data ++ bs }) }
+    | some f =>
+      { st with fs := setFs st.fs p (some { f with data := f.data.take (st.cur p) ++ bs ++
+                                                       f.data.drop (st.cur p + bs.length) }),
+                cur := fun q => if q = p then st.cur p + bs.length else st.cur q }
     | none => st
   | .rename s d => { st with fs := setFs (setFs st.fs d (st.fs s)) s none }
 
@@ -186,12 +201,16 @@ structure Variant where
   utf8Tolerant : Bool
   /-- `needs_rebuild`: lines compared with `version ++ "\n"` / `hash ++ "\n"` exactly (no `trim`) -/
   exactHeader : Bool
+  /-- the temporary file is opened with truncation (`fs::File::create` / `.truncate(true)`); when
+      `false` it is opened with `OpenOptions::new().write(true).create(true)` only, so bytes of an
+      earlier, longer temporary file survive behind the new contents -/
+  truncTmp : Bool := true
   deriving DecidableEq, Repr
 
 /-- the code as found (lalrpop 0.23.1) -/
-def Variant.old : Variant := ⟨false, false, false, false⟩
+def Variant.old : Variant := ⟨false, false, false, false, true⟩
 /-- the repaired code -/
-def Variant.fixed : Variant := ⟨true, true, true, true⟩
+def Variant.fixed : Variant := ⟨true, true, true, true, true⟩
 
 /-! ### `needs_rebuild` -/
 
@@ -254,6 +273,10 @@ inductive Outcome where
 def writeOut (dst : Path) (p : Params) (g body : Bytes) : List FsAct :=
   [.create dst, .write dst (p.version ++ [NL]), .write dst (p.hash g ++ [NL]), .write dst body]
 
+/-- the same three writes into a file opened WITHOUT truncation -/
+def writeOutKeep (dst : Path) (p : Params) (g body : Bytes) : List FsAct :=
+  [.openKeep dst, .write dst (p.version ++ [NL]), .write dst (p.hash g ++ [NL]), .write dst body]
+
 def reportActs (cfg : Cfg) (i : Nat) (reps : List Bytes) : List FsAct :=
   if cfg.emitReport then reps.flatMap fun r => [.create (.rep i), .write (.rep i) r] else []
 
@@ -288,7 +311,8 @@ def plan (v : Variant) (p : Params) (cfg : Cfg) (st : St) (i : Nat) : Outcome ×
       | .error e => (.genErr e, pre)
       | .ok body =>
         if v.tmpRename then
-          (.built, pre ++ (writeOut (.tmp i) p g body ++ [.rename (.tmp i) (.rs i)]))
+          (.built, pre ++ ((if v.truncTmp then writeOut (.tmp i) p g body else writeOutKeep (.tmp i) p g body)
+            ++ [.rename (.tmp i) (.rs i)]))
         else (.built, pre ++ writeOut (.rs i) p g body)
 
 def build (v : Variant) (p : Params) (cfg : Cfg) (st : St) (i : Nat) : Outcome × St :=
